@@ -51,6 +51,15 @@ func runC01(c *fw.Case) (o fw.Outcome) {
 		cfg.Reg = 3 + r.Intn(2)
 	}
 	ch := genChoices(r, cfg.Reg)
+	if c.Idx%6 == 4 { // a slow, but conformant AMF: its own procedure after the registration starts 6.5 s later
+		ch.AfterRegDelay, ch.AfterRegMsg = 6500*time.Millisecond, 0
+		if cfg.Reg < 2 {
+			cfg.Reg = 2
+			ch = genChoices(r, cfg.Reg)
+			ch.AfterRegDelay, ch.AfterRegMsg = 6500*time.Millisecond, 0
+		}
+		o.Tag("after-registration-message-late")
+	}
 	sp := procdrv.Spec{Cfg: cfg, Choices: ch, Fault: refamf.Fault{At: -1}, Args: []string{"-t"}, Watchdog: 30*time.Second + 10*nominalDuration(cfg)}
 	res := procdrv.Run(workDir(), emuPath(), sp)
 	o.Input = fmt.Sprintf("config=%s amf_ids=%v ngksi=%d extra_ies=%v reg_accept_opts=%05b backup_amf_name=%v", cfgSummary(cfg), ch.AmfIDs, ch.NgKSI, ch.ExtraDLIEs, ch.RegAcceptOpts, ch.BackupAMFName)
